@@ -33,13 +33,14 @@ def sweep_bound(T, R):
 class GameFacts:
     """Exact facts about a game description (mode independent)."""
 
-    def __init__(self, game, known=None):
+    def __init__(self, game, known=None, allow_slow=False):
         """known: optional dict(pstar=[Fractions], T=number) for planted games whose exact values are known
         by construction (too large for the rational solver); such games are stopping by construction."""
         self.game = game
         self.n = len(game["players"])
         self._c = {}
         self.known = known
+        self.allow_slow = allow_slow          # planted very slow games: explored whatever their T
         if known:
             self._c["pstar"] = ("ok", list(known["pstar"]))
             self._c["T"] = ("ok", F(known["T"]))
@@ -75,7 +76,7 @@ class GameFacts:
     @property
     def too_slow(self):
         """True if the exact maximal expected absorption time exceeds what is explored for this size."""
-        if self.known:
+        if self.known or self.allow_slow:
             return False
         return self.T > t_limit(self.n)
 
@@ -140,7 +141,7 @@ class Solved:
                                  "is (some play is never absorbed), so the loop has no derived bound")
         self.iterated_T = T
         lim = 2 * t_limit(len(state_list))
-        if T > lim:
+        if T > lim and not self.facts.allow_slow:
             raise SkipSolve(f"conditioned game has T={float(T):.0f} > {lim}")
         return sweep_bound(T, self.facts.R)
 
